@@ -99,7 +99,7 @@ class YaccCompiler(SimpleBuildCommand):
         flags = []
         for i in options:
             if isinstance(i, opts.define):
-                if i.value:
+                if i.value is not None:
                     flags.append('-D' + i.name + '=' + i.value)
                 else:
                     flags.append('-D' + i.name)
